@@ -74,6 +74,10 @@ CLAIMS = {
             "structurally pure JSON, rebuilt schema and rules equal the originals and give the same validity, failure paths, tested "
             "count and cast data for every value of the symbolic atoms and non-castable leaves; real JSON text on each witness",
             "3 C13"),
+    "C17": ("for each placement of a data-path argument (positional, keyword, two at once, inside list / mapping / keyword-mapping "
+            "arguments, concrete and non-concrete, with modifiers, absent, API-built and spec-parsed, escaped literals) the rule's "
+            "verdict and failures equal those of the same rule with the argument replaced by the reference walk's selection, for "
+            "every value of the referenced value, the leaves and thresholds", "3 C17"),
     "C14": ("equality laws (reflexive/symmetric/transitive, rebuilt and commuted copies equal) and 'equal implies same "
             "behaviour' decided for every value of the differing atom (key, index, argument, label) and of the probe "
             "document's leaves, per term kind", "3 C14"),
